@@ -69,11 +69,17 @@ func (s *snapshots) latest() (index, term uint64) {
 	return s.index, s.term
 }
 
+func (s *snapshots) latestIndex() uint64 {
+	index, _ := s.latest()
+	return index
+}
+
 func (s *snapshots) meta() (snapshotMeta, error) {
-	if s.index == 0 {
+	index := s.latestIndex()
+	if index == 0 {
 		return snapshotMeta{index: 0, term: 0}, nil
 	}
-	f, err := os.Open(metaFile(s.dir, s.index))
+	f, err := os.Open(metaFile(s.dir, index))
 	if err != nil {
 		return snapshotMeta{}, err
 	}
